@@ -177,7 +177,8 @@ def nested_write_ops(g, t, v, n, observe):
         key = r.choice(keys)
         ct, cv = sg.child_tv(view, key)
         op = sg.one_op(dict(t=ct, v=cv, hook=None, kids=False))
-        if op is None or op[0] == 'sets' and kind(ct) not in ('list', 'vec'):
+        if op is None or op[0] == 'sets':
+            # (a nested slice assignment may fail half-way with its first items written: not an atomic step)
             continue
         cv2 = _apply_val(ct, cv, op)
         if kind(t) == 'union':
